@@ -1666,7 +1666,20 @@ class GenerativeFunctionClosure(Generic[R], GenerativeFunction[R]):
                 (full_args, Diff.unknown_change(self.kwargs)),
             )
         else:
-            return self.gen_fn.edit(key, trace, edit_request, argdiffs)
+            return self.gen_fn.edit(key, trace, edit_request, full_args)
+
+    def update(
+        self,
+        key: PRNGKey,
+        trace: Trace[R],
+        constraint: ChoiceMap,
+        argdiffs: Argdiffs,
+    ) -> tuple[Trace[R], Weight, Retdiff[R], ChoiceMap]:
+        # The trace belongs to the underlying function, so the default `update`
+        # (which dispatches on the trace) would bypass the stored arguments.
+        tr, w, rd, bwd = self.edit(key, trace, Update(constraint), argdiffs)
+        assert isinstance(bwd, Update), type(bwd)
+        return tr, w, rd, bwd.constraint
 
     def assess(
         self,
